@@ -118,4 +118,23 @@ def Undisturbed (s : Cache K V) (ops : List (Op K V)) (k : K) : Prop :=
   | [] => True
   | op :: rest => writes s op k = false ∧ Undisturbed (step s op).1 rest k
 
+/-- the values an operation hands over to the cache (a front mutation of an empty cache stores nothing) -/
+def newValues (s : Cache K V) : Op K V → List V
+  | .push _ v => [v]
+  | .setFront v => if s.items.isEmpty then [] else [v]
+  | _ => []
+
+/-- all values handed over to the cache during a history that starts in `s` -/
+def introduced (s : Cache K V) : List (Op K V) → List V
+  | [] => []
+  | op :: ops => newValues s op ++ introduced (step s op).1 ops
+
+instance decUndisturbed (s : Cache K V) (ops : List (Op K V)) (k : K) : Decidable (Undisturbed s ops k) :=
+  match ops with
+  | [] => isTrue trivial
+  | op :: rest =>
+    match decUndisturbed (step s op).1 rest k with
+    | isTrue h => if hw : writes s op k = false then isTrue ⟨hw, h⟩ else isFalse (fun hh => hw hh.1)
+    | isFalse h => isFalse (fun hh => h hh.2)
+
 end Tbx.LruSpec
